@@ -31,6 +31,38 @@ Theorem ctx_already_proof : forall s c k, panicked s = false ->
   step s (LRetCtx c) = Some (ret c k RCtx s).
 Proof. intros s c k Hp Hc Hb Hx. unfold step. rewrite Hp, Hc, Hb, Hx. reflexivity. Qed.
 
+(* ---- use after close, full strength ----
+   A call that began after a Close call had returned (late) is, for as long as it exists, either a
+   FetchMessage / ReadMessage at the head of its loop (about to take r.mutex and find r.closed) or
+   already returned with io.EOF, or a CommitMessages at its non-blocking closed check or already
+   returned with io.ErrClosedPipe (without a group: errOnlyAvailableWithGroup). *)
+Definition late_ok (g : bool) (k : call) : bool :=
+  match k_kind k, k_ph k with
+  | KTrip, _ => true
+  | KFetch, PFLock | KFetch, PDone REOF | KRead, PFLock | KRead, PDone REOF => true
+  | KCommit, PCCheck | KCommit, PDone RClosedPipe => true
+  | KCommit, PDone ROther => negb g
+  | _, _ => false
+  end.
+Definition inv6 (s : state) : Prop :=
+  forall c k, nth_error (calls s) c = Some k ->
+    exists late pre, call_info c (hist s) = Some (k_kind k, late, pre) /      (late = true -> existsb is_closed_ev (hist s) = true /\ late_ok (c_group (cfg s)) k = true).
+
+Lemma reply_all_nth : forall cs ok s c k', nth_error (calls (reply_all cs ok s)) c = Some k' ->
+  exists k, nth_error (calls s) c = Some k /\ k_kind k' = k_kind k /\ (k' = k \/ k_ph k = PCWait None).
+Proof.
+  induction cs; intros ok s c k' H; simpl in H; [eauto|].
+  destruct (IHcs _ _ _ _ H) as (k1 & H1 & K1 & D1). clear H IHcs.
+  unfold reply in H1. destruct (nth_error (calls s) a) eqn:E; [|eauto].
+  destruct (k_ph c0) as [| | | |[rp|]| | |] eqn:P; eauto.
+  unfold set_call in H1. cbn in H1. rewrite nth_upd in H1. destruct (Nat.eqb_spec a c).
+  - subst. rewrite E in H1. inversion H1; subst k1. exists c0. split; auto. split; [rewrite K1; reflexivity|].
+    right. exact P.
+  - eauto.
+Qed.
+
+Lemma late_ok_wait : forall g k k', k_kind k' = k_kind k -> k_ph k = PCWait None -> late_ok g k = true -> late_ok g k' = true.
+Proof. intros g k k' K P L. unfold late_ok in *. rewrite K. rewrite P in L. destruct (k_kind k); try discriminate. reflexivity. Qed.
 (* ---- use after close: what does hold ---- *)
 Theorem after_close_partial_proof : forall c ls s, run step (init c) ls = Some s -> close_returned s = true ->
   closed s = true /\ stctx s = true /\ all_exited s = true /\
